@@ -282,15 +282,14 @@ def _topologies():
 
   def three_concats(mb, g):
     # one quantized tensor feeding three CONCATENATIONs of different range
-    # (dense-block skip connections): three re-quantize ops on one tensor
+    # (dense-block skip connections): three re-quantize ops on one tensor;
+    # the other operands are constants to keep the number of symbolic scale
+    # comparisons (and so of paths) small
     x = g.input('x', (1, 2))
-    a = g.input('a', (1, 2))
-    b = g.input('b', (1, 2))
-    c = g.input('c', (1, 2))
     t = g.unary('TANH', x, 't')
-    g.output(g.concat([t, a], 'y1'))
-    g.output(g.concat([t, b], 'y2'))
-    g.output(g.concat([t, c], 'y3'))
+    for k in (1, 2, 3):
+      c = g.const(f'c{k}', np.array([[0.25 * k, -0.5 * k]], np.float32))
+      g.output(g.concat([t, c], f'y{k}'))
   add('tensor_feeds_three_concats', three_concats)
 
   def weight_is_output(mb, g):
